@@ -78,9 +78,15 @@ static void arm_faults(void) {
   }
 }
 
+static long fired_seen = 0;
+static void note_fault(void) {
+  char mark[400];
+  if (io_shim_fired() != fired_seen) { fired_seen = io_shim_fired(); sprintf(mark, "fault %ld %s", fired_seen, io_shim_fired_desc()); io_shim_mark(mark); }
+}
+
 static int cmd_record(int argc, char **argv) {
   int seed = atoi(argv[2]), nb, endmode, b, rc; const char *dbdir = argv[3]; uint32_t bits; ldb_t *db; char desc[512], mark[700];
-  int faulting = getenv("FAULT_K") != NULL; long fired_seen = 0;
+  int faulting = getenv("FAULT_K") != NULL;
   bits = (uint32_t)strtoul(argv[5], NULL, 0); nb = atoi(argv[6]); endmode = atoi(argv[7]);
   d_seed((uint64_t)seed * 7919ULL + 13); d_init_keys(); init_dkeys();
   d_make_opts(&O, bits); O.o.comparator = NULL; d_set_comparator(0);
@@ -96,12 +102,12 @@ static int cmd_record(int argc, char **argv) {
     wb = make_batch(b, desc, 4, 0);
     sprintf(mark, "begin %d %d %s", b, wo.sync, desc); io_shim_mark(mark);
     rc = ldb_write(db, wb, &wo);
+    note_fault();
     sprintf(mark, "ack %d %d %d", b, wo.sync, rc); io_shim_mark(mark);
     ldb_batch_destroy(wb);
-    if (faulting && io_shim_fired() != fired_seen) { fired_seen = io_shim_fired(); sprintf(mark, "fault %ld %s", fired_seen, io_shim_fired_desc()); io_shim_mark(mark); }
     r = d_rn(100);
-    if (r < 7) { rc = ldb_test_compact_memtable(db); sprintf(mark, "flush %d", rc); io_shim_mark(mark); }
-    else if (r < 11) { ldb_test_compact_range(db, d_rn(3), NULL, NULL); io_shim_mark("compact 0"); }
+    if (r < 7) { rc = ldb_test_compact_memtable(db); note_fault(); sprintf(mark, "flush %d", rc); io_shim_mark(mark); }
+    else if (r < 11) { ldb_test_compact_range(db, d_rn(3), NULL, NULL); note_fault(); io_shim_mark("compact 0"); }
     else if (r < 13 && !faulting) {
       ldb_close(db); io_shim_mark("closed 0");
       rc = ldb_open(dbdir, &O.o, &db); sprintf(mark, "opened %d", rc); io_shim_mark(mark);
@@ -109,10 +115,12 @@ static int cmd_record(int argc, char **argv) {
     }
     if (faulting) { /* reads keep returning correct data or an error while faults are active */
       ldb_slice_t k = ldb_string(dkeys[d_rn(NDK)]), v; int g = ldb_get(db, &k, &v, NULL);
+      note_fault();
       sprintf(mark, "read %s %d %d", (char *)k.data, g, g == 0 ? d_valid(v.data, v.size) : 0); io_shim_mark(mark);
       if (g == 0) ldb_free(v.data);
     }
   }
+  { sprintf(mark, "count %ld", io_shim_count()); io_shim_mark(mark); }
   if (faulting) { io_shim_clear(); io_shim_mark("cleared 0"); }
   if (endmode == 1) { ldb_close(db); io_shim_mark("closed 0"); }
   io_shim_mark("end 0");
